@@ -597,7 +597,44 @@ def law_error(ctx, name, args, force=False, sig=None):
     m.done(args[0], sig, nontrivial=True)
 
 
-LAWS = {'slice': law_slice, 'mid': law_mid, 'find': law_find, 'sub': law_sub, 'case': law_case,
+def law_sub_consistent(ctx, s, old, force=False):
+    """'SUBSTITUTE replaces all or exactly the i-th occurrence': both forms must mean the same occurrences.
+    The occurrences are read off pycel's OWN all-occurrence answer (with a marker as new text), so the law
+    does not depend on how overlapping matches of a self-overlapping needle ('aa' in 'aaa') are counted."""
+    mark = '\x01'
+    case = {'law': 'subc', 'p': {'s': s, 'old': old}}
+    allf = lib.call('substitute', s, old, mark)
+    ctx.count('SUBC:cases')
+    ctx.case(('subc', s, old), nontrivial=True)
+    if allf[0] != 'v' or not isinstance(allf[1], str):
+        return
+    starts, pos = [], 0
+    for ch in allf[1]:
+        if ch == mark:
+            starts.append(pos)
+            pos += len(old)
+        else:
+            pos += 1
+    if pos != len(s) or any(s[p:p + len(old)] != old for p in starts):
+        ctx.violation('SUBSTITUTE/all-occurrences', f'SUBSTITUTE({s!r},{old!r},MARK) = {allf[1]!r} is not {s!r} with '
+                      f'occurrences of {old!r} replaced', case)
+        return
+    if len(starts) > 1:
+        ctx.count('SUBC:several-occurrences')
+    if R.self_overlapping(old):
+        ctx.count('SUBC:self-overlapping-needle')
+    for i in range(1, len(starts) + 2):
+        got = lib.call('substitute', s, old, mark, i)
+        ctx.count('SUBC:instance-calls')
+        want = s if i > len(starts) else s[:starts[i - 1]] + mark + s[starts[i - 1] + len(old):]
+        if got != ('v', want):
+            ctx.violation('SUBSTITUTE/instance-form-disagrees-with-all-form',
+                          f'SUBSTITUTE({s!r},{old!r},MARK) marks occurrences at {starts}, so instance {i} must give '
+                          f'{want!r}; SUBSTITUTE({s!r},{old!r},MARK,{i}) = {got!r}', case)
+            return
+
+
+LAWS = {'subc': law_sub_consistent, 'slice': law_slice, 'mid': law_mid, 'find': law_find, 'sub': law_sub, 'case': law_case,
         'exact': law_exact, 'concat': law_concat, 'text': law_text, 'error': law_error}
 
 
@@ -837,6 +874,12 @@ def run(ctx):
         if ctx.mine(i):
             for fmt in FORMATS:
                 law_text(ctx, x, fmt)
+    # SUBSTITUTE: instance form consistent with the all-occurrence form, also for self-overlapping needles
+    for s in strings('ab ', 5, 1):
+        for old in ('a', 'aa', 'ab', 'aba', 'b', ' ', 'aaa'):
+            i += 1
+            if ctx.mine(i) and len(old) <= len(s):
+                law_sub_consistent(ctx, s, old)
     ctx.note('exhaustive part done after %.1fs' % (ctx.budget - ctx.time_left()))
     sampled(ctx)
 
